@@ -1,11 +1,11 @@
-\* exhaustive, quick: 5 keys (all classes, shared secret, duplicate), 3 connections, 2 in flight, every salt choice
+\* exhaustive, quick: entropy faults (EntropyFails) - 5 keys, 2 connections, every salt choice
 SPECIFICATION Spec
 CONSTANTS
   Keys <- KeysQ
-  Conns = {1, 2, 3}
+  Conns = {1, 2}
   CacheModes = {"nil", "zero", "on"}
   MaxSalt = 6
-  Faults = FALSE
+  Faults = TRUE
   MaxInFlight = 2
 INVARIANTS TypeOK RespSaltsFresh RespSaltsRecognised ReflectedNeverAuthenticated StatusClasses ProbeNoEffect
 VIEW View
